@@ -186,6 +186,81 @@ def monitor_main(c):
     return out
 
 
+def monitor_looks(c):
+    """C19's statements on one history with several ConnectionState() calls on the same connection (looks leg):
+    returns list of (monitor, text); the sequence/data-flow monitors are the property's own predicate, the
+    stale-export line says which call handed out a State that was not the connection's current one"""
+    out = []
+    if not c["complete"]:
+        g = (c["gens"] or [{}])[-1]
+        out.append(("resume-refused", "generation %d: marshal=%s decode=%s resume=%s start=%s" % (
+            len(c["gens"]) - 1, g.get("marshal_err"), g.get("decode_err"), g.get("resume_err"), g.get("start_err"))))
+        return out
+    def counter(l):
+        st = l["state"]
+        return st["local_seq"][st["local_epoch"]] if st["local_epoch"] < len(st["local_seq"]) else None
+    stale = [l for l in c["looks"] if l["ok"] and l["got"]["seq"] != counter(l)]
+    why = ""
+    if stale:
+        l = stale[0]
+        why = ("; ConnectionState() call at position %d of generation %d (%s) returned sequence number %d while the "
+               "connection's next record number was %d (LocalSequenceNumber %s, %d records already on the wire)" % (
+                   l["at"], l["gen"], "the export that was serialised and resumed" if l["export"] else "a look",
+                   l["got"]["seq"], counter(l), l["state"]["local_seq"],
+                   l["sent_before"]))
+    wire = [(w["e"], w["s"]) for w in c["all_wire"]]
+    dup = sorted({x for x in wire if wire.count(x) > 1})
+    if dup:
+        out.append(("sequence", "record numbers used twice by the exported side (all its incarnations): %s; everything it "
+                    "sent: %s%s" % (dup, wire, why)))
+    if c["write_errs"]:
+        out.append(("data-flow", "write errors: %s%s" % (c["write_errs"], why)))
+    if c["sent_self"] != c["got_peer"]:
+        out.append(("data-flow", "%s -> peer: sent %s, the untouched peer read %s%s" % (
+            c["side"], c["sent_self"], c["got_peer"], why)))
+    if c["sent_peer"] != c["got_self"]:
+        out.append(("data-flow", "peer -> %s: sent %s, read %s%s" % (c["side"], c["sent_peer"], c["got_self"], why)))
+    exps = [l["exp"] for l in c["looks"] if l["ok"]] + [c["exp_peer"], c["exp_final"]]
+    if any(e != exps[0] for e in exps) or not exps[0] or any(x["out"].startswith("err:") for e in exps for x in (e or [])):
+        out.append(("exporter", "exporter outputs differ between the ConnectionState() calls / the peer / the resumed "
+                    "connection: %s" % [[x["out"][:16] for x in (e or [])] for e in exps]))
+    first = next((l["got"] for l in c["looks"] if l["ok"]), None)
+    if first:
+        d = sorted({k for l in c["looks"] if l["ok"] for k in PARAM_FIELDS if l["got"].get(k) != first.get(k)} |
+                   {k for k in PARAM_FIELDS if c["final_ok"] and c["final"].get(k) != first.get(k)})
+        if d or not c["final_ok"]:
+            out.append(("parameters", "negotiated parameters differ between the ConnectionState() calls in %s "
+                        "(final ConnectionState ok=%s)" % (d, c["final_ok"])))
+    if stale and not out:
+        out.append(("stale-export", why[2:]))
+    return out
+
+
+def looks_terms(c):
+    """one Coq looks_case per generation with at least one ConnectionState() call: internal state at the first call,
+    events after it (0 = call, e+1 = a record sent at epoch e), sequence numbers returned"""
+    terms = []
+    for g, h in enumerate(c["histories"]):
+        ls = [l for l in c["looks"] if l["gen"] == g]
+        if not ls or not all(l["ok"] for l in ls):
+            continue
+        e = ls[0]["state"]["local_epoch"]
+        ops = h[ls[0]["at"] + 1:] if ls[0]["at"] < len(h) else ""
+        evs = []
+        for op in ops:
+            if op == "L":
+                evs.append(0)
+            elif op == "S":
+                evs.append(e + 1)
+        if ls[0]["at"] < len(h):
+            evs.append(0)          # the export at the end of the generation
+        if len([x for x in evs if x == 0]) + 1 != len(ls):
+            continue
+        terms.append(("(%s, %s, %s)" % (c_istate(ls[0]["state"]), cNlist(evs), cNlist([l["got"]["seq"] for l in ls])),
+                      (c, g)))
+    return terms
+
+
 def run(chk):
     proved = chk.prove(["theories/State/C19Run.vo"])
     env = {"VERIF_SEED": chk.seed, "VERIF_TIER": chk.tier}
@@ -194,7 +269,8 @@ def run(chk):
     for name, test, tmo in (("main", "TestVerifC19Main", 1500), ("corrupt", "TestVerifC19Corrupt", 1500),
                             ("suites", "TestVerifC19Suites", 300), ("custom", "TestVerifC19Custom", 300),
                             ("mid", "TestVerifC19MidHandshake", 300), ("vc", "TestVerifC19VerifyConn", 600),
-                            ("limit", "TestVerifC19Limit", 600), ("final", "TestVerifC19FinalFlight", 300)):
+                            ("limit", "TestVerifC19Limit", 600), ("final", "TestVerifC19FinalFlight", 300),
+                            ("looks", "TestVerifC19Looks", 900)):
         outp = vlib.out_path("c19" + name)
         rc, o = vlib.go_test(".", "^%s$" % test, dict(env, VERIF_OUT=outp), timeout=tmo, tags=["c19"])
         legs[name] = vlib.read_jsonl(outp)
@@ -229,6 +305,32 @@ def run(chk):
                 "; variant.vers: 1 = `side` is a dual-stack endpoint (MaxVersion 1.3) and its peer speaks 1.2 only, "
                 "resumed with the same options; 2 = resumed with options MinVersion = MaxVersion = 1.3"
                 if mon == "F67" else ""), "case": c, "rerun": rerun})
+    # histories with several ConnectionState() calls on the same connection (looks leg)
+    how_looks = ("establish `variant`; for every string of `histories` (one per generation) run its ops on the current "
+                 "connection of `side`: L = ConnectionState() (result only inspected), S = `side` writes a record, P = its "
+                 "peer writes a record; then ConnectionState() once more, MarshalBinary / UnmarshalBinary, close the "
+                 "endpoint silently, resumeWithConfig on a fresh endpoint with the same address (the next generation "
+                 "runs on the resumed connection); after the last resume `side` writes k and the peer m records. looks = "
+                 "every ConnectionState() call with the internal state at that moment; all_wire = every record of `side`")
+    looks_reported = set()
+    for c in sorted(legs["looks"], key=lambda c: (sum(len(h) for h in c["histories"]), len(c["histories"]))):
+        for mon, text in monitor_looks(c):
+            if mon in looks_reported:
+                continue
+            looks_reported.add(mon)
+            found_input = True
+            chk.finding("conn.go ConnectionState / state.go generateState",
+                        {"monitor": mon, "leg": "looks"},
+                        "ConnectionState() called more than once on one connection (%s, histories %s): %s" % (
+                            c["side"], c["histories"], text),
+                        {"how": how_looks, "variant": c["variant"], "side": c["side"], "histories": c["histories"],
+                         "k": c["k"], "m": c["m"],
+                         "looks": [{k: l[k] for k in ("gen", "at", "export", "ok", "sent_before")} |
+                                   {"returned_seq": l["got"].get("seq"), "local_epoch": l["state"]["local_epoch"],
+                                    "local_seq": l["state"]["local_seq"]} for l in c["looks"]],
+                         "all_wire": c["all_wire"], "sent_self": c["sent_self"], "got_peer": c["got_peer"],
+                         "sent_peer": c["sent_peer"], "got_self": c["got_self"], "write_errs": c["write_errs"],
+                         "rerun": rerun})
     for c in corrupt:
         if c["result"] == "panic":
             found_input = True
@@ -570,6 +672,56 @@ def run(chk):
         chk.count("final-flight", len(legs["final"]), [(c["variant"], c["owner"], c["export"]) for c in legs["final"]],
                   samples=[{k: c[k] for k in ("variant", "owner", "export", "peer_done", "o2p", "p2o")} for c in legs["final"][:2]])
 
+        # several ConnectionState() calls on one connection: every call against generateState of the state at
+        # that moment (mid_ok), every generation's history against the model's [export] run on it (looks_ok)
+        lk = legs["looks"]
+        calls = [(c, l) for c in lk for l in c["looks"]]
+        qterms = ["(%s, %d, %s)" % (c_istate(l["state"]), 0 if l["ok"] else 1, c_pstate(l["got"] if l["ok"] else ZERO_P))
+                  for _, l in calls]
+        bad, err = vlib.coq_mismatches("c19q", IMPORTS, "mid_case", "mid_ok", qterms, shard=60)
+        hist = [t for c in lk for t in looks_terms(c)]
+        bad2, err2 = vlib.coq_mismatches("c19h", IMPORTS, "looks_case", "looks_ok", [t for t, _ in hist], shard=60)
+        if bad is None or bad2 is None:
+            chk.broken("correspondence evaluation (looks) failed in coqc", err if bad is None else err2)
+        else:
+            for i in bad[:1]:
+                c, l = calls[i]
+                m = monitor_looks(c)
+                chk.finding("conn.go ConnectionState / state.go generateState", {"monitor": "model-mismatch", "leg": "looks"},
+                            "ConnectionState() call %d of generation %d (histories %s, %s) differs from generateState of "
+                            "the connection's state at that moment (State/C19Export.v export): returned sequence number "
+                            "%s, LocalSequenceNumber %s%s" % (
+                                l["at"], l["gen"], c["histories"], c["side"], l["got"].get("seq"), l["state"]["local_seq"],
+                                ": " + m[0][1] if m else ""),
+                            {"case": {k: c[k] for k in ("variant", "side", "histories", "k", "m", "all_wire", "sent_self",
+                                                        "got_peer", "sent_peer", "got_self")}, "call": l,
+                             "correspondence": "State.C19Run.mid_ok", "rerun": rerun},
+                            no_input=(not m and not found_input))
+            for i in (bad2[:1] if not bad else []):
+                c, g = hist[i][1]
+                m = monitor_looks(c)
+                chk.finding("conn.go ConnectionState / state.go generateState", {"monitor": "model-mismatch", "leg": "looks-history"},
+                            "the sequence numbers returned by the ConnectionState() calls of generation %d (histories %s, %s) "
+                            "differ from the model's export run on the same history%s" % (
+                                g, c["histories"], c["side"], ": " + m[0][1] if m else ""),
+                            {"case": {k: c[k] for k in ("variant", "side", "histories", "k", "m", "all_wire")},
+                             "calls": [l for l in c["looks"] if l["gen"] == g],
+                             "correspondence": "State.C19Run.looks_ok", "rerun": rerun},
+                            no_input=(not m and not found_input))
+        multi = [c for c in lk if c["complete"] and any(sum(1 for l in c["looks"] if l["gen"] == g) > 1
+                                                         for g in range(len(c["histories"])))]
+        chk.count("looks", len(lk), [(c["variant"]["name"], c["side"], tuple(c["histories"]), c["k"], c["m"]) for c in multi],
+                  samples=[{"variant": c["variant"]["name"], "side": c["side"], "histories": c["histories"],
+                            "returned_seq": [l["got"].get("seq") for l in c["looks"]]} for c in multi[-2:]])
+        chk.cov["traces_validated_against_impl"] += len(lk)
+        chk.leg_info("looks", connectionstate_calls=len(calls), histories_compared_with_model=len(hist),
+                     generations={n: sum(1 for c in lk if len(c["histories"]) == n) for n in (1, 2, 3)},
+                     sides={s_: sum(1 for c in lk if c["side"] == s_) for s_ in ("client", "server")},
+                     look_then_sends_then_export=sum(1 for c in lk if any(
+                         "L" in h and "S" in h[h.index("L"):] for h in c["histories"])))
+        if not multi:
+            chk.broken("looks harness: no history with more than one ConnectionState() call on one connection completed", "")
+
         # suite table
         sterms = ["(%d, %s, %s, %s, %s, %d)" % (c["id"], cbool(c["known"]), cbool(c["v13"]), cbool(c["init_ok"]),
                                                   cbool(c["resume"]), c["hash"]) for c in suites]
@@ -606,6 +758,12 @@ def run(chk):
              "final-flight: the owner of the lost final flight is exported/resumed (control: not exported). "
              "verifyconn: the State handed to a VerifyConnection callback (local epoch 0), on both sides of 6 variants (34 thorough): "
              "serialises and decodes, must be refused by the import. "
+             "looks: histories over {look = ConnectionState() inspected only, record from the exported side, record from the peer} "
+             "with ConnectionState() called more than once on the same connection, 1..3 generations (the export at the end of "
+             "each is serialised and resumed, the next generation runs on the resumed connection), both sides, fixed shapes + "
+             "generated; every call against generateState of the state at that moment, every generation against the model's "
+             "export run on its history; monitors: no record number twice over all incarnations, both directions deliver, same "
+             "exporter values and parameters at every call; non-trivial = a completed history with > 1 call on one connection. "
              "suites: every 16-bit id known to ForID plus sampled unknown ids.",
         assumptions=[
             "gob (Go standard library) round-trips a serializedState value; byte-level damage that gob rejects is observed, not modelled",
